@@ -357,7 +357,7 @@ func (e *Eval) evalBin(n *EBin) tv {
 	case "-":
 		return tv{Sub(a, b), nil}
 	case "*":
-		return tv{app(SInt, "*", a, b), nil}
+		return tv{Mul(a, b), nil}
 	case "/":
 		return tv{app(SInt, "div", a, b), nil}
 	case "%":
@@ -650,6 +650,17 @@ func (e *Eval) evalCall(n *ECall) tv {
 			e.fail("typeid: unknown type %s", s.V)
 		}
 		return tv{I(int64(vc.eng.typeID(t))), nil}
+	case "boxed":
+		// boxed("pkg.emptyStructType"): the interface value holding that empty struct
+		s, ok := n.Args[0].(*EStr)
+		if !ok {
+			e.fail("boxed expects a string literal")
+		}
+		t := vc.eng.resolveType(s.V)
+		if t == nil {
+			e.fail("boxed: unknown type %s", s.V)
+		}
+		return tv{I(int64(500000 + vc.eng.typeID(t))), nil}
 	case "str":
 		s, ok := n.Args[0].(*EStr)
 		if !ok {
@@ -700,7 +711,9 @@ func (e *Eval) evalCall(n *ECall) tv {
 		if len(n.Args) != len(sf.Args) {
 			e.fail("spec %s: expected %d args, got %d", n.Fn, len(sf.Args), len(n.Args))
 		}
-		vc.declareFun(sf.Name, sf.Args, sf.Res)
+		if !vc.eng.definedInPrelude(sf.Name) {
+			vc.declareFun(sf.Name, sf.Args, sf.Res)
+		}
 		var as []T
 		for i := range n.Args {
 			a := e.leaf(n.Args[i])
